@@ -454,7 +454,11 @@ func c07Scenarios(th bool) []*Scn {
 			if kill != "" {
 				name = "kill-race"
 			}
-			out = append(out, &Scn{Name: fmt.Sprintf("%s/%s/%s", name, cfg.name, kill), Bound: bound,
+			b := bound
+			if kill == "" {
+				b = bound + 1 // the blind double handshake is where a kill meets the victim's own pending transition
+			}
+			out = append(out, &Scn{Name: fmt.Sprintf("%s/%s/%s", name, cfg.name, kill), Bound: b,
 				Run: func(ch vrt.Chooser, trace bool) *ScnResult {
 					w, e, o := collRun(cfg, ch, trace, false, eagerScript(cfg, kill), nil)
 					return finishRun("C07", name, w, e, trace, false, func() (string, string) { return judgeEager(kill, w, o) }, nil)
